@@ -77,6 +77,10 @@ type ledger struct {
 func runImpl(t vkit.TB, order []string, grace time.Duration, conns map[int]*cconn) (viol string, detail map[string]any, blockedAtStart int) {
 	ctx, cancel := context.WithCancel(context.Background())
 	defer cancel()
+	if preCancelled && len(order) > 0 && order[0] == "x" {
+		// the parent context is cancelled before the listener is even constructed
+		cancel()
+	}
 	l, err := nodenet.NewMultiplexingListener(ctx, &net.TCPAddr{})
 	if err != nil {
 		t.Fatalf("NewMultiplexingListener: %v", err)
@@ -307,7 +311,19 @@ func perms(items []string) [][]string {
 	return out
 }
 
+// preCancelled: orders that start with the parent cancel are also run with the
+// cancel placed BEFORE NewMultiplexingListener.
+var preCancelled bool
+
 func runOne(t vkit.TB, order []string, class string, variant int) bool {
+	if len(order) > 0 && order[0] == "x" && !preCancelled {
+		preCancelled = true
+		ok := runOne(t, order, class+"/cancelled-before-construction", variant)
+		preCancelled = false
+		if !ok {
+			return false
+		}
+	}
 	rec := vkit.Rec(prop)
 	grace := 1500 * time.Microsecond
 	v, detail, nontrivial := runOrder(t, order, grace, variant)
